@@ -13,7 +13,7 @@ CLAIMS = {
   "design": "DESIGN.md section 4, C08",
   "note": "Trusted: Coq kernel; the regex crate enters as an oracle with premises engine_dotstar / engine_prefix_law; the run uses RIO.Rx (executable model of the regex fragment), validated by the correspondence; harness + driver."},
  "C12": {
-  "text": "Proof at the tree level: for every admissible history, limit and level, cache warm-up changes no find/get/len/entry (C12_tree_cache_transparent), only flips compiled flags (C12_only_flags), and cache steps are invisible to the live-set refinement (C12_cache_steps_invisible); tied by histories dense in cache steps and an exhaustive (limit, level) sweep. Partial: the router-level loop (Router::cache, Route::compile) is covered through the router model when present.",
+  "text": "Proof at both levels: tree — for every admissible history, limit and level, cache warm-up changes no find/get/len/entry (C12_tree_cache_transparent), only flips compiled flags (C12_only_flags), cache steps are invisible to the live-set refinement (C12_cache_steps_invisible); router — Router::cache with any limit at any point of any admissible history changes no match result (C12_router_cache_transparent, C12_router_cache_steps_invisible). Tied by histories dense in cache steps, an exhaustive (limit, level) sweep on trees, and router histories with cache steps (C02 run). Partial: Route::compile (pre-compilation of capture regexes) and captures after caching are not modelled.",
   "design": "DESIGN.md section 4, C12",
   "note": "Trusted: as C08; leaf patterns non-empty (the single point where lazy and compiled matching differ is exhibited by C12_empty_leaf_differs)."},
 
@@ -29,6 +29,18 @@ CLAIMS = {
   "text": "Proof for every configuration (all flag combinations, any marketing list) and every URL satisfying explicit boolean side conditions: a literal rule matches its own URL (C09_literal_matches), the request matching string is invariant under key-stable permutations of the query (C09_param_order), under added/removed ignored marketing parameters (C09_marketing_ignored, C09_rule_matches_equivalent), under ASCII case swap with the case flag (C09_case, C09_case_rule); differing path or decoded parameters never match on the clean domain (C09_differs_no_match); rebuild is idempotent (C09_rebuild_idempotent, C09_rebuild_keeps_request); skipped parameters reach the target iff the pass flag (C09_skipped_iff_pass, C09_target_with_skipped); the separately defined encode sets agree and absorb (C09_encode_sets_agree, C09_encode_absorb[_sets]). Each excluded class has a refuted/witness lemma; four of them are listed known findings reproduced on the crate by committed corpus cases.",
   "design": "DESIGN.md section 4, C09",
   "note": "Trusted: Coq kernel; percent-encoding / form_urlencoded / http::uri::PathAndQuery are MODELLED (byte-class tables copied from the crates, validated by the correspondence run, two 256-byte sweeps by vm_compute); lossy UTF-8 decoding outside the model (precondition utf8_valid); harness + driver."},
+ "C01": {
+  "text": "Full proof on the router model: for every configuration, every set of acceptable routes with unique ids and every request, match_request of the router built from the set returns exactly (as a multiset, each route once) the routes of the reference linear scan: conjunction of the per-trigger predicates (scheme, host static/regex, ip ranges, methods / exclusion, header conditions, datetime/time/weekday windows, path literal or regex) with the any-host policy scoped per scheme (C01_exact, C01_once); unbounded in the number of routes, of conditions per route, of buckets. The proof goes through a representation relation for each of the seven matchers (generic bucket-layer theorem instantiated 5 times, custom proofs for the path leaf and the host matcher) and the regex-tree theorem of C08. Closed under the global context. Tie: correspondence on routes built with Route::new over a colliding vocabulary.",
+  "design": "DESIGN.md section 4, C01",
+  "note": "Trusted: Coq kernel; regex engine as a parameter with premises engine_dotstar / engine_prefix_law (see C08), String::to_lowercase arbitrary; cidr/chrono parsing done by the harness; acceptable route = regex paths/hosts of the rule shape, no duplicate method / ip entries (C01_ok_route); harness + driver."},
+ "C02": {
+  "text": "Full proof by refinement over unbounded histories: after any admissible history of insert_route / remove / batch_remove / apply_change_set / cache (inserted routes acceptable, live ids unique) the router answers every request exactly as the reference on the flat list of live routes (C02_refines), hence as a router rebuilt from scratch (C02_rebuild); len = number of live rules (C02_len); remove returns the stored route or None exactly when the id is not live (C02_remove_returns, C02_removed_not_live); stale counts after batch_remove and un-pruned buckets are shown harmless by the representation invariant (count never undercounts). Clone isolation: identity in the functional model (C02_clone_mut_identity), decided by the correspondence run which clones the real Router, mutates the clone and keeps probing the original.",
+  "design": "DESIGN.md section 4, C02",
+  "note": "Trusted: as C01. Partial for the clone clause (aliasing is not expressible in Gallina): by correspondence only."},
+ "C17": {
+  "text": "Proof: on the router reached by any admissible history, the routes appearing in trace_request are exactly the routes returned by match_request (C17_routes: every matcher's trace(), incl. the separate memo logic of the header/datetime traces and both tree_trace_to_trace functions, lists the matched routes), and the traced final route has the maximal priority, equal to get_route's (C17_final_priority). Partial: the TraceAction steps (action trace) are covered by the correspondence of C05/C19 only.",
+  "design": "DESIGN.md section 4, C17",
+  "note": "Trusted: as C01; only the route-carrying structure of traces is modelled (counts, executed flags and trace infos other than Storage are not)."},
 }
 REASON_PENDING = "not yet claimed: model and theorems under construction (DESIGN.md section 8 build order); no check is registered until it decides the property"
 
